@@ -34,6 +34,27 @@ def S0(a: AST) -> str:
     return _CTX_RE.sub('', ast.dump(a))
 
 
+def S_fblank(tree: AST) -> str:
+    """Structure with the literal parts of f-strings blanked: in a self-documenting field `{expr = }` the expression text, whitespace included, is
+    also the value of the preceding literal part, so an edit of the expression changes that Constant too."""
+
+    saved = []
+
+    try:
+        for n in ast.walk(tree):
+            if isinstance(n, ast.JoinedStr):
+                for v in n.values:
+                    if isinstance(v, ast.Constant):
+                        saved.append((v, v.value))
+                        v.value = ''
+
+        return S(tree)
+
+    finally:
+        for v, val in saved:
+            v.value = val
+
+
 def first_diff(x: str, y: str, ctx: int = 60) -> str:
     n = min(len(x), len(y))
     i = next((i for i in range(n) if x[i] != y[i]), n)
